@@ -654,7 +654,11 @@ class PrecipitateBase(GenericModel):
             # Compute driving force and precipitate composition (which helps with growth rate and impingement in multicomponent systems)
             # If driving force is negative, then we can skip the rest of the calculations (no nucleation barrier and no nucleation rate)
             aspectRatio = precParams.shapeFactor.aspectRatio(self.pData.Rcrit[self.pData.n, p])
-            _, volDG, self._precBetaTemp[p] = nucfuncs.volumetricDrivingForce(self.therm, xComp, T, precParams, aspectRatio, self.removeCache)
+            dgResult = nucfuncs.volumetricDrivingForce(self.therm, xComp, T, precParams, aspectRatio, self.removeCache)
+            #If the equilibrium calculation failed, keep the last valid values for this phase
+            if dgResult[1] is None:
+                continue
+            _, volDG, self._precBetaTemp[p] = dgResult
             Y.drivingForce[0,p] = volDG
             if volDG < 0:
                 continue
